@@ -29,6 +29,8 @@ from typing import Any, Dict, Iterable, List, Optional, Tuple
 
 from . import jsonx
 
+_now = time.time   # the real clock (simulated worlds rebind time.time while they execute)
+
 VERIF_ROOT = os.path.dirname(os.path.dirname(os.path.abspath(__file__)))
 EVIDENCE_DIR = os.environ.get("VERIF_EVIDENCE_DIR") or os.path.join(VERIF_ROOT, "evidence")
 REPLAY_DIR = os.environ.get("VERIF_REPLAY_DIR") or os.path.join(VERIF_ROOT, "replays")
@@ -239,7 +241,7 @@ def write_replay(prop_id: str, plan: dict, out: dict, note: str = "") -> str:
 # main driver
 
 def run_check(prop_id: str, tier: str, seed: int, jobs: int, budget_s: Optional[float] = None) -> int:
-    t0 = time.time()
+    t0 = _now()
     prop = load_prop(prop_id)
     total = prop.total(tier)
     print("VERIF_SEED=%d property=%s tier=%s plans=%d jobs=%d repo_src=%s" % (
@@ -293,7 +295,7 @@ def run_check(prop_id: str, tier: str, seed: int, jobs: int, budget_s: Optional[
     truncated = False
     if jobs <= 1:
         for ch in chunks:
-            if time.time() - t0 > budget_s:
+            if _now() - t0 > budget_s:
                 truncated = True
                 break
             for i, o in _worker((prop_id, tier, seed, ch, guard)):
@@ -310,7 +312,7 @@ def run_check(prop_id: str, tier: str, seed: int, jobs: int, budget_s: Optional[
                 done_all = False
                 while not done_all:
                     while len(live) < jobs * 2:
-                        if time.time() - t0 > budget_s:
+                        if _now() - t0 > budget_s:
                             truncated = True
                             break
                         try:
@@ -396,7 +398,7 @@ def run_check(prop_id: str, tier: str, seed: int, jobs: int, budget_s: Optional[
         print("  (%d explored runs attributed to %s)" % (n, fid))
 
     # -- evidence --------------------------------------------------------------------------
-    wall = time.time() - t0
+    wall = _now() - t0
     write_evidence(prop, prop_id, tier, seed, results, wall, len(violations_new), kf_hits,
                    harness_errors, truncated, det_checked, replay_paths, stale)
     if harness_errors:
